@@ -354,6 +354,17 @@ IfDS(c, a, b) ==
                         ELSE { [x \in names |-> IF x \in ids THEN r[x] ELSE sel.v] }
     IN  [comps |-> keep, rows |-> UNION { from(pick(r), r) : r \in c.rows }]
 
+(* exists_in(a, b, retain): for every datapoint of a, whether b has a datapoint agreeing on the identifiers they share;      *)
+(* retain = "all" keeps every datapoint, "true" / "false" only those with that answer.                                      *)
+ExistsIn(a, b, retain) ==
+    LET common == IdsOf(a) \cap IdsOf(b)
+        ans(r) == IF \E q \in b.rows : Rst(q, common) = Rst(r, common) THEN T ELSE F
+        all == { With(Rst(r, IdsOf(a)), "bool_var", ans(r)) : r \in a.rows }
+    IN  [comps |-> { c \in a.comps : c.r = "I" } \cup { Comp("bool_var", "M", "Boolean") },
+         rows |-> CASE retain = "true" -> { r \in all : r["bool_var"] = T }
+                    [] retain = "false" -> { r \in all : r["bool_var"] = F }
+                    [] OTHER -> all]
+
 (* case when DS_c1 then a1 when DS_c2 then a2 ... else b at dataset level: as IfDS, the datapoints are those of the first       *)
 (* condition; a condition dataset without a datapoint for the key counts as not true.  Conditions are mutually exclusive in     *)
 (* everything generated (READINGS.md 24); should two be true the value is not determined.                                      *)
@@ -422,6 +433,9 @@ EvalD(t, env) ==
                 e == EvalD(t.else, env)
                 all == cs \o ts \o <<e>>
             IN  IF \E i \in DOMAIN all : IsE(all[i]) THEN all[CHOOSE i \in DOMAIN all : IsE(all[i])] ELSE CaseDS(cs, ts, e)
+      [] t.k = "exists" ->
+            LET a == EvalD(t.l, env) b == EvalD(t.r, env)
+            IN  IF IsE(a) THEN a ELSE IF IsE(b) THEN b ELSE ExistsIn(a, b, t.retain)
       [] t.k = "memb" ->
             LET x == EvalD(t.ds, env) IN IF IsE(x) THEN x ELSE Memb(x, t.comp)
       [] t.k = "clause" ->
